@@ -140,6 +140,16 @@ def call(trajs, case, how=None):
         from enspara.msm import MSM, builders
         m = MSM(lag_time=case["lag"], method=lambda C, **kw: (C, C, None), trim=False, sliding_window=case["sliding"],
                 max_n_states=case["max_n_states"])
+        if case["max_n_states"] is not None and not dtype.startswith("u"):
+            # the same estimator object was first asked to count assignments that do NOT fit the requested number of
+            # states (whatever it does with them - the function refuses them); the request itself is unchanged by that
+            too_big = np.array([[0, int(case["max_n_states"]), 0]], dtype=dtype) if int(case["max_n_states"]) <= np.iinfo(dtype).max \
+                else None
+            if too_big is not None:
+                try:
+                    m.fit(too_big)
+                except Exception:
+                    pass
         m.fit(x)
         C = m.tcounts_
     else:
